@@ -2,6 +2,7 @@ package props
 
 import (
 	"fmt"
+	"strings"
 
 	"gkvverif/harness"
 )
@@ -96,6 +97,18 @@ func c04Profiles(tier string) []Profile {
 			conc = append(conc, sc.Profile(1))
 		}
 	}
+	pm := *p
+	pm.Name, pm.NoFile, pm.Depth, pm.Mon = "snapshots-memory", true, d-1, harness.Monitors{}
+	pm.Letters = func(w *harness.World) []Letter {
+		var ls []Letter
+		for _, l := range p.Letters(w) {
+			if !strings.HasPrefix(l.Name, "RevertSnap") { // FlushRevert needs a file
+				ls = append(ls, l)
+			}
+		}
+		return ls
+	}
+	conc = append(conc, pm.Profile(fmt.Sprintf("the same alphabet on a memory-only store, histories of length <= %d: a snapshot of a store without a file is just as isolated and just as read-only (Set/Delete through it are refused)", d-1)))
 	return append(conc, p.Profile(fmt.Sprintf("every history of length <= %d interleaving Set/Delete/Evict/Flush/RemoveCollection/SetCollection(existing and new)/Close on the original with Snapshot (of the original and of snapshots, <= %d alive), full reads of a snapshot, an iterator parked inside a visit of a snapshot (which must survive the snapshot's Close and later mutations of the original), FlushRevert of a snapshot, Close of a snapshot and the refused Set/Delete/Flush on a snapshot; at the end every open snapshot is compared, through the whole public read API, with the deep copy of the model taken when it was created, the original with the model, and every write or truncate issued during a snapshot letter is a violation", d, alive)))
 }
 
